@@ -359,6 +359,11 @@ impl State {
     }
 
     fn build_from(&mut self, s: Xstr, path: Option<Xstr>, mode: ContextMode) -> Xresult {
+        if mode == ContextMode::Compile && self.last_error.is_some() && self.is_running() {
+            // the program compiled earlier stopped with an error: it is not resumed
+            // together with the code compiled now
+            self.ctx.ip = self.code_origin();
+        }
         let nested_len = self.nested.len();
         let input_len = self.input.len();
         let heap_len = self.heap.len();
